@@ -340,6 +340,7 @@ package writer
 //@   ensures result == nil ==> NS(w) == old(NS(w)) + 1
 //@   ensures result == nil ==> SE(w, NS(w) - 1).start == start && SE(w, NS(w) - 1).tableStart == end && SE(w, NS(w) - 1).type_ == 1
 //@   ensures result == nil ==> (forall k :: 0 <= k && k < old(NS(w)) ==> SE(w, k).start == old(SE(w, k).start) && SE(w, k).tableStart == old(SE(w, k).tableStart) && SE(w, k).type_ == old(SE(w, k).type_))
+//@   ensures[C01] old(NS(w)) == 0 || old(SE(w, NS(w) - 1).type_) != 1 ==> result == nil
 
 //@ func (*writer).popData
 //@   safety[C12]
@@ -350,6 +351,7 @@ package writer
 //@   ensures err == nil ==> old(NS(w)) > 0 && NS(w) == old(NS(w)) - 1
 //@        && obj(w.writerState.stack.stack) == old(obj(w.writerState.stack.stack)) && off(w.writerState.stack.stack) == old(off(w.writerState.stack.stack))
 //@   ensures err == nil ==> old(SE(w, NS(w) - 1).type_) == 1 && start == old(SE(w, NS(w) - 1).start) && end == old(SE(w, NS(w) - 1).tableStart)
+//@   ensures[C01] old(NS(w)) > 0 && old(SE(w, NS(w) - 1).type_) == 1 ==> err == nil
 
 // ---- writer: lists
 
@@ -587,6 +589,7 @@ package writer
 //@   ensures[C01] old(w.err) == nil && result == nil ==> (forall k :: 0 <= k && k < old(SE(w, NS(w) - 2).tableStart) ==> FE(w, k).Tag == old(FE(w, k).Tag) && FE(w, k).Offset == old(FE(w, k).Offset))
 //@   preserves old(w.err) == nil && result == nil : @NOTSF
 //@   ensures[C01] old(w.err) == nil && result == nil ==> (forall k :: 0 <= k && k < NS(w) ==> SE(w, k).start == old(SE(w, k).start) && SE(w, k).tableStart == old(SE(w, k).tableStart) && SE(w, k).type_ == old(SE(w, k).type_))
+//@   ensures[C01] old(w.err) == nil && old(NS(w)) >= 2 && old(SE(w, NS(w) - 1).type_) == 1 && old(SE(w, NS(w) - 2).type_) == 4 ==> result == nil
 
 //@ func (*writer).hasField
 //@   safety[C12]
@@ -667,6 +670,7 @@ package writer
 //@   ensures[C01] old(w.err) == nil && result1 == nil ==> obj(result0) == bobj(w.writerState.buf) && lo(result0) == SE(w, NS(w) - 1).start && len(result0) == BL(w) - SE(w, NS(w) - 1).start
 //@   ensures[C01] old(w.err) == nil && result1 == nil ==> w.writerState == old(w.writerState) && w.writerState.buf == old(w.writerState.buf)
 //@   ensures[C01] old(w.err) == nil && result1 == nil ==> (forall k :: 0 <= k && k < NS(w) - 1 ==> SE(w, k).start == old(SE(w, k).start) && SE(w, k).tableStart == old(SE(w, k).tableStart) && SE(w, k).type_ == old(SE(w, k).type_))
+//@   ensures[C01] old(w.err) == nil && old(NS(w)) >= 1 && old(SE(w, NS(w) - 1).type_) == 4 && (old(NS(w)) == 1 || old(SE(w, NS(w) - 2).type_) != 1) && mDS <= 2147483647 && mTS <= 2147483647 ==> result1 == nil
 
 // ---- writer: values and end
 
@@ -733,6 +737,7 @@ package writer
 //@   ensures[C01] eRoot && err == nil ==> isUvarint(bytesOf(bobj(eB)), eL0 + eTS + uvarintLen(eDS), uvarintLen(eTS), eTS)
 //@   ensures[C01] eRoot && err == nil ==> bytesOf(bobj(eB))[eL0 + eTS + uvarintLen(eDS) + uvarintLen(eTS)] == ite(eBig, 81, 80)
 //@   ensures[C01] eRoot && err == nil ==> (forall i :: 0 <= i && i < eL0 ==> bytesOf(bobj(eB))[i] == old(bytesOf(bobj(eB)))[i])
+//@   ensures[C01] eRoot && eDS <= 2147483647 && eTS <= 2147483647 ==> err == nil
 
 // ---- construction
 
@@ -844,6 +849,7 @@ package writer
 //@   modifies @BUF
 //@   modifies writer.MessageWriter.*
 //@   ensures[C01] result1 == nil ==> result0 == v
+//@   ensures[C01] result1 == nil
 //@   canary[C01] result0 == 0
 
 // ---- handles (generated by /verif/tools/gen_writer_contracts.py)
@@ -987,6 +993,7 @@ package writer
 //@   ensures[C01] old(w.w.err) == nil && result == nil ==> (forall k :: 0 <= k && k < old(NS(w.w)) ==> SE(w.w, k).start == old(SE(w.w, k).start) && SE(w.w, k).tableStart == old(SE(w.w, k).tableStart) && SE(w.w, k).type_ == old(SE(w.w, k).type_))
 //@   ensures[C01] old(w.w.err) == nil && result == nil ==> BL(w.w) == old(BL(w.w)) + uvarintLen(zigzag(v)) + 1 && isUvarint(bytesOf(bobj(w.w.writerState.buf)), old(BL(w.w)), uvarintLen(zigzag(v)), zigzag(v)) && bytesOf(bobj(w.w.writerState.buf))[BL(w.w) - 1] == 11
 //@   ensures[C01] old(w.w.err) == nil && result == nil ==> (forall i :: 0 <= i && i < old(BL(w.w)) ==> bytesOf(bobj(w.w.writerState.buf))[i] == old(bytesOf(bobj(w.w.writerState.buf)))[i])
+//@   ensures[C01] old(w.w.err) == nil && (old(NS(w.w)) == 0 || old(SE(w.w, NS(w.w) - 1).type_) != 1) ==> result == nil
 //@   ensures[C12] WI(w.w)
 //@   ensures[C12] w.w.err == nil ==> STK1(w.w)
 //@   ensures[C12] w.w.err == nil ==> STK2(w.w)
@@ -1853,6 +1860,8 @@ package writer
 //@   ensures[C01] bRoot && result1 == nil ==> isUvarint(bytesOf(bobj(bB)), bL0 + bTS + uvarintLen(bDS), uvarintLen(bTS), bTS)
 //@   ensures[C01] bRoot && result1 == nil ==> bytesOf(bobj(bB))[bL0 + bTS + uvarintLen(bDS) + uvarintLen(bTS)] == ite(bBig, 81, 80)
 //@   ensures[C01] bRoot && result1 == nil ==> (forall i :: 0 <= i && i < bL0 ==> bytesOf(bobj(bB))[i] == old(bytesOf(bobj(bB)))[i])
+//   progress: ending the root message fails only when the data or the table is too large
+//@   ensures[C01] bRoot && bDS <= 2147483647 && bTS <= 2147483647 ==> result1 == nil
 
 //@ func (*MessageWriter).End
 //@   safety[C12]
@@ -1987,6 +1996,7 @@ package writer
 //@   ensures[C01] old(f.w.err) == nil && result == nil ==> (forall k :: 0 <= k && k < NS(f.w) ==> SE(f.w, k).start == old(SE(f.w, k).start) && SE(f.w, k).tableStart == old(SE(f.w, k).tableStart) && SE(f.w, k).type_ == old(SE(f.w, k).type_))
 //@   ensures[C01] old(f.w.err) == nil && result == nil ==> BL(f.w) == old(BL(f.w)) + uvarintLen(zigzag(v)) + 1 && isUvarint(bytesOf(bobj(f.w.writerState.buf)), old(BL(f.w)), uvarintLen(zigzag(v)), zigzag(v)) && bytesOf(bobj(f.w.writerState.buf))[BL(f.w) - 1] == 11
 //@   ensures[C01] old(f.w.err) == nil && result == nil ==> (forall i :: 0 <= i && i < old(BL(f.w)) ==> bytesOf(bobj(f.w.writerState.buf))[i] == old(bytesOf(bobj(f.w.writerState.buf)))[i])
+//@   ensures[C01] old(f.w.err) == nil && old(NS(f.w)) >= 1 && old(SE(f.w, NS(f.w) - 1).type_) == 4 ==> result == nil
 //@   ensures[C12] WI(f.w)
 //@   ensures[C12] f.w.err == nil ==> STK1(f.w)
 //@   ensures[C12] f.w.err == nil ==> STK2(f.w)
